@@ -1324,6 +1324,11 @@ func genC20(r *R, n int, tier string, out *Out) {
 		}
 		build(3, isObj)
 		prefix := pickOf(r, []string{"", "\n", "garbage text\n\n", "// c\n", "  \n\n\n"})
+		if r.chance(0.12) {
+			// many lines, or one very long physical line (longer than any read buffer), in front of the root
+			prefix = pickOf(r, []string{strings.Repeat("\n", 11+r.Intn(120)), strings.Repeat("x", 4000+r.Intn(5000)) + "\n", strings.Repeat(" ", 4096) + "\n\n",
+				strings.Repeat("y", 9000) + "\n" + strings.Repeat("\n", 10), strings.Repeat("ab\n", 40)})
+		}
 		// inject one error: replace a scalar by an invalid literal, or a structural token by a wrong character
 		kind := r.Intn(4)
 		var cands []int
@@ -1350,6 +1355,9 @@ func genC20(r *R, n int, tier string, out *Out) {
 			switch kind {
 			case 0, 1:
 				toks[j] = pickOf(r, []string{"tru", "nul", "1.2.3", "--1", "abc", "0x", "1e"})
+				if r.chance(0.2) { // long invalid literals (a message that quotes the literal must still end in the right line number)
+					toks[j] = pickOf(r, []string{"tru", "9", "nu", "1.", "z"}) + strings.Repeat(pickOf(r, []string{"e", "9", "l", "1", "q"}), pickOf(r, []int{60, 70, 71, 72, 73, 74, 75, 100, 118, 119, 120, 130, 300}))
+				}
 				tags = []string{"injected:invalid-literal"}
 				// detected at the delimiter that terminates the literal: first ',' ']' '}' after it
 				off := len(prefix) + len(strings.Join(toks[:j+1], ""))
